@@ -11,6 +11,16 @@ Four parts (DESIGN.md section C03), all bounded-exhaustive over the real interpr
             same interpreter at top level.  The harness knows no Klong semantics beyond that.  If the substituted
             body raises, the call must raise too (class not compared); otherwise the canonical values must be equal.
             After every call the non-system variables and the context depth must be what they were before.
+            Adverbs are observed twice: through the assembled result (the expected list is assembled by the
+            interpreter itself from the literals of the element results) and through a logging verb
+            fc = {rec(<body>)} (rec = Python callable that records its argument), which shows every single
+            application whatever the adverb does with the results.  Recursion is also entered from another
+            function's frame (w), and the leaf bodies are called as the whole body of a nilad ({f(a;b)}()).
+            The full product "<= 3 nodes x all tuples over 6 values x all forms" is ~10^9 evaluations; the layers
+            actually enumerated (each one completely) are listed in coverage.bounds.
+            Triage aids (never part of a verdict): a disagreement is re-run in a freshly loaded interpreter and
+            with the expression compiler switched off; disagreements caused by the compiled fast path (C05's
+            subject) are listed once per function body.
 (b) PROJECT every fill plan of a dyad / triad: an ordered sequence of disjoint position sets (intermediate steps are
             projections bound to variables p1, p2, ..., the last step is the call), any hole order, with and without
             "fill nothing" steps, for the non-commutative bodies {x-y} {x-y-z} {x,y,z}.  Same oracle.
@@ -53,7 +63,7 @@ U3 = (I(-2), L(I(1), I(2), I(3)), S('ab'))
 U2 = (I(-2), L(I(1), I(2), I(3)))
 
 # restricted grammar for the deepest layer of the thorough tier
-LEAVES_R = ('x', 'y', 'z', '1', 'g')
+LEAVES_R = ('x', 'y', 'z', 'g')
 MON_R = ('-', '#')
 DY_R = ('-', ',', '@')
 
@@ -147,7 +157,7 @@ LOCAL_TEMPLATES = {
 }
 
 
-LOCAL_TEMPLATES_DEEP = ('T1', 'T4', 'T5')       # templates used with the 2-node bodies (thorough tier)
+LOCAL_TEMPLATES_DEEP = ('T1', 'T5')       # templates used with the 2-node bodies (thorough tier)
 
 
 class Body:
@@ -875,7 +885,7 @@ def check_fault(ftree, depth, args, st, twin=None):
 
 
 FAULT_TUPLES_Q = ((I(-2), L(I(1), I(2), I(3)), S('ab')), (I(3), R(1.5), I(0)))
-FAULT_TUPLES_T = FAULT_TUPLES_Q + ((S('ab'), I(0), L(I(1), I(2), I(3))), (L(I(1), I(2), I(3)), S('ab'), R(1.5)))
+FAULT_TUPLES_T = FAULT_TUPLES_Q + ((L(I(1), I(2), I(3)), S('ab'), R(1.5)),)
 
 
 def fault_items(cfg):
@@ -1128,8 +1138,17 @@ def run(cfg):
         'that are not explored',
         'f@L is exercised with list literals; arguments are the elements of the evaluated list (numeric-block '
         'promotion applies: [3 1.5] passes 3.0), f@a only with numeric atoms',
-        'adverb results are compared modulo "a list of characters may be a string" because the harness assembles the '
-        'expected list from element results; all other comparisons are exact on the canonical form of values.py',
+        'the expected result list of an adverb is assembled by the interpreter from the literals of the element '
+        'results ([;v1;v2;...]) and compared exactly; only if an element has no literal the harness builds the list '
+        'and compares modulo "a list of characters/symbols may be a string"; the assembled Each-2 result is compared '
+        'only for bodies <= 1 node, every other layer observes Each-2 through the logging verb (each application)',
+        'all calls of one function body share one interpreter (re-loaded after a state leak); a disagreement that '
+        'does not reproduce in a freshly loaded interpreter is reported with the full history of earlier evaluations',
+        'disagreements that disappear when klongpy.interpreter.compile_expr is switched off (root cause in the '
+        'compiled fast path, C05) are listed once per function body and kind; the number of further ones is in '
+        'parts.a.compiler_related_disagreements_not_listed_separately and in the case of the listed one',
+        'after %d violations in one worker chunk or %d / %d (quick / thorough) over all workers the remaining items '
+        'are skipped and coverage.exhaustive is false (not reached on the pinned tree)' % (VIOLATION_CAP, 3000, 20000),
         'f/[a b c] and a f/[b c] are skipped where the intermediate result has no literal (counted in '
         'parts.a.over3_skipped_intermediate_without_literal)',
         'projection arguments are literals, so the time at which a projected argument is evaluated is not observed',
@@ -1155,9 +1174,15 @@ def replay(cfg, path):
         k['la'] = lambda: (log.append('A'), 11)[1]
         k['lb'] = lambda: (log.append('B'), 22)[1]
         k['lc'] = lambda: (log.append('C'), 33)[1]
+    if part == 'a' and case.get('collector'):
+        k['rec'] = lambda x: (log.append(x), 0)[1]
     print('key:', r.get('key'))
     for p in progs:
+        if part == 'a':
+            del log[:]
         print('  %-60s -> %s' % (p, show_outcome(outcome(lambda: k(p)))))
+        if part == 'a' and log:
+            print('  %-60s    applications: %s' % ('', ' ; '.join(show(cn(v)) for v in log)))
     if part == 'd':
         print('  branches run:', ''.join(log) or '-')
     print('  after:', show_snapshot(snapshot(k, with_ids=False)))
